@@ -46,11 +46,3 @@ def queries(tier):
             Q('h_number', {nm['powN']: 'stub_pow', nm['powP']: 'stub_pow'})
     return qs
 
-def mono(tier):
-    qs = []
-    for L in (2, 3, 4, 5):
-        nm = names('char')
-        b = {'TrimLeft|parseArray|parseObject|UnEscape|Write|stringToNumber|parseExponent|vf_buf.*': L + 1, 'HexStringToNumber': 5, 'parseValue': 6, 'Insert': 4, 'Array|HArray|Value|ShapeChild|any_value|stub_.*|String': 4}
-        qs.append(Query('mono/L%d' % L, 'C05_json.cpp', 'h_top', {'L': L, 'CHAR': 'char'}, bounds=b, stubs={nm['powN']: 'stub_pow', nm['powP']: 'stub_pow'},
-                        cflags=['-Dprotected=public'], rec_bounds={'parse.*': (L // 2) + 2}, timeout=600))
-    return qs
